@@ -13,12 +13,12 @@ def run(ctx):
     parsecheck.run_parse(ctx, {"corpus", "mutants", "gen"}, WANT, subcmd="err-events")
     # located type errors ride on the span events of the `k = value` generator documents
     h = ctx.build(features=("preserve_order",))
-    parsecheck.run_more(ctx, h, {"gen", "spandocs"}, {"err-type-location"}, "span-events")
+    parsecheck.run_more(ctx, h, {"gen", "spandocs"}, {"err-type-location", "err-keypath-location"}, "span-events")
     return ctx.finish("model_checking", RULE)
 
 
 def replay(ctx, path):
     import json
     rp = json.load(open(path))
-    sub = "span-events" if rp.get("what") == "err-type-location" else "err-events"
-    return parsecheck.replay_parse(ctx, path, WANT | {"err-type-location"}, subcmd=sub)
+    sub = "span-events" if rp.get("what") in ("err-type-location", "err-keypath-location") else "err-events"
+    return parsecheck.replay_parse(ctx, path, WANT | {"err-type-location", "err-keypath-location"}, subcmd=sub)
